@@ -11,7 +11,15 @@ Encoding of Python semantics (stated in every evidence file):
   * & | ^ are modelled for masks 2**k-1, single bits and 0/1 operands; anything else is
     an uninterpreted function (sound: nothing is assumed about it).
 """
+import os
+
 import z3
+
+# z3 5.x: the Diophantine-equation handler of the LIA solver (lp.dio) can run for hours on some of these queries
+# without honouring rlimit or the timeout (observed: a worker stuck in lp::dioph_eq::imp::substitute_on_q on numbers
+# with thousands of digits).  It is switched off for every query; PYVC_Z3_DIO=1 restores the default.
+if os.environ.get('PYVC_Z3_DIO') != '1':
+    z3.set_param('lp.dio', False)
 
 I = z3.IntSort()
 B = z3.BoolSort()
